@@ -22,13 +22,18 @@ type c10Job struct {
 	lex   *model.LexModel
 }
 
-func newC10Job(name, mode string, g *gram.Grammar) *c10Job {
+func newC10Job(name, mode string, g *gram.Grammar, extra []string) *c10Job {
 	j := &c10Job{GenJob: &GenJob{Name: name, G: g}, mode: mode}
 	switch mode {
 	case "no-lexer":
 		j.Flags = []string{"-a", "-no_lexer"}
 	default:
 		j.Flags = []string{"-a"}
+	}
+	for _, f := range extra {
+		if !(mode == "no-lexer" && f == "-debug_lexer") && !hasFlag(j.Flags, f) {
+			j.Flags = append(j.Flags, f)
+		}
 	}
 	j.terms = g.AllTerminalNames()
 	if len(g.NTs) > 0 {
@@ -54,24 +59,33 @@ func runC10(c *Ctx) error {
 	var jobs []*c10Job
 	for i := 0; i < n; i++ {
 		name := fmt.Sprintf("g%04d", i)
+		// the numbering must not depend on the presentation flags either
+		var extra []string
+		if c.Rng.Intn(2) == 0 {
+			for _, f := range []string{"-v", "-zip", "-debug_parser", "-debug_lexer"} {
+				if c.Rng.Intn(3) == 0 {
+					extra = append(extra, f)
+				}
+			}
+		}
 		switch i % 3 {
 		case 0:
 			o := gram.DefaultLexGenOpts()
 			o.StrLits = 0
-			jobs = append(jobs, newC10Job(name, "lexer-only", gram.GenLexGrammar(c.Rng, o)))
+			jobs = append(jobs, newC10Job(name, "lexer-only", gram.GenLexGrammar(c.Rng, o), extra))
 		case 1:
 			g := hostileGrammar(c.Rng, false)
 			if c.Rng.Intn(2) == 0 {
 				g.Lex = nil // tokens not declared at all: numbered from their use in the syntax part
 			}
-			jobs = append(jobs, newC10Job(name, "no-lexer", g))
+			jobs = append(jobs, newC10Job(name, "no-lexer", g, extra))
 		default:
 			g := hostileGrammar(c.Rng, false)
 			// extra declared-but-unused tokens are numbered after the used ones
 			for k := 0; k < c.Rng.Intn(3); k++ {
 				g.Lex = append(g.Lex, gram.LexDef{Kind: gram.DTok, Name: fmt.Sprintf("zz_unused%d", k), Pat: gram.StrPattern(fmt.Sprintf("#%d", k))})
 			}
-			jobs = append(jobs, newC10Job(name, "combined", g))
+			jobs = append(jobs, newC10Job(name, "combined", g, extra))
 		}
 	}
 	return runC10Jobs(c, jobs)
@@ -319,6 +333,6 @@ func replayC10(c *Ctx, w *Witness) error {
 		return fmt.Errorf("bad witness")
 	}
 	g := w.Grammar.Clone()
-	j := newC10Job("g_replay_"+w.Key()[:8], w.Strs[0], g)
+	j := newC10Job("g_replay_"+w.Key()[:8], w.Strs[0], g, w.Flags)
 	return runC10Jobs(c, []*c10Job{j})
 }
